@@ -174,7 +174,7 @@ class PredEval:
                     for m in self._missing:
                         if m not in atoms and m not in new_atoms:
                             new_atoms.append(m)
-                    rows.append(({**env, **aenv}, res))
+                    rows.append(({**env, **aenv, "__effects__": tuple(self._effects)}, res))
             if not new_atoms:
                 break
             atoms += new_atoms
@@ -187,6 +187,8 @@ class PredEval:
         self._env = env
         self._aenv = aenv
         self._loc: dict[str, Any] = dict(self.params)
+        self._effects: list[str] = []  # calls executed, in order (normalised text)
+        self._ver: dict[str, int] = {}  # attribute/subscript text -> number of opaque re-assignments so far
         for k in getattr(self, "_param_subjects", ()):  # a parameter that is later re-bound starts at its enumerated value
             if k in env:
                 self._loc[k] = env[k]
@@ -205,8 +207,27 @@ class PredEval:
                     self._block(st.body)
                 else:
                     self._block(st.orelse)
-            elif isinstance(st, ast.Assign) and len(st.targets) == 1 and isinstance(st.targets[0], ast.Name):
+            elif isinstance(st, ast.Assign) and len(st.targets) == 1 and isinstance(st.targets[0], ast.Name) and not self._is_effect(st.value):
                 self._loc[st.targets[0].id] = self._val(st.value)
+            elif isinstance(st, (ast.Assign, ast.AnnAssign, ast.AugAssign)) and getattr(st, "value", None) is not None:
+                # the value is a call/await (an effect with an unknown result), or the target is not a plain local: every target
+                # becomes a fresh opaque value - later tests on it are new atoms, distinct from tests made before this point
+                if self._is_effect(st.value):
+                    self._effects.append(norm(st.value.value if isinstance(st.value, ast.Await) else st.value))
+                tgts = st.targets if isinstance(st, ast.Assign) else [st.target]
+                for t in tgts:
+                    for el in (t.elts if isinstance(t, (ast.Tuple, ast.List)) else [t]):
+                        if isinstance(el, ast.Starred):
+                            el = el.value
+                        if isinstance(el, ast.Name):
+                            if self._is_effect(st.value) or isinstance(t, (ast.Tuple, ast.List)):
+                                self._loc[el.id] = ("opaque", f"{el.id}@{getattr(st, 'lineno', 0)}")
+                            else:
+                                self._loc[el.id] = self._val(st.value)
+                        else:
+                            k = norm(el)
+                            self._ver[k] = self._ver.get(k, 0) + 1
+                            self._env.pop(k, None)
             elif isinstance(st, ast.For):
                 it = st.iter
                 if not isinstance(it, (ast.Tuple, ast.List)):
@@ -228,9 +249,15 @@ class PredEval:
             elif isinstance(st, (ast.Pass, ast.Expr, ast.Assert, ast.FunctionDef, ast.AsyncFunctionDef, ast.Nonlocal, ast.Global, ast.Raise)):
                 if isinstance(st, ast.Raise):
                     raise _Return(("raise", norm(st.exc)[:60] if st.exc is not None else ""))
+                if isinstance(st, ast.Expr) and self._is_effect(st.value):
+                    self._effects.append(norm(st.value.value if isinstance(st.value, ast.Await) else st.value))
                 continue
             else:
                 raise Unsupported(f"statement {type(st).__name__}: {norm(st)[:50]}")
+
+    @staticmethod
+    def _is_effect(v: ast.expr | None) -> bool:
+        return isinstance(v, ast.Await) or (isinstance(v, ast.Call) and not (isinstance(v.func, ast.Name) and v.func.id in ("int", "str", "bool", "len", "float", "tuple", "list", "dict", "set", "isinstance", "min", "max", "abs")))
 
     def _bind(self, target: ast.expr, el: ast.expr) -> None:
         if isinstance(target, ast.Name):
@@ -245,9 +272,11 @@ class PredEval:
             v = self._loc[e.id]
             if isinstance(v, tuple) and len(v) == 2 and v[0] == "expr":
                 return self._subject_value(v[1])
+            if isinstance(v, tuple) and len(v) == 2 and v[0] == "opaque":
+                return TOP
             return v
         key = norm(e)
-        if key in self._env:
+        if key in self._env and not self._ver.get(key):
             return self._env[key]
         return TOP
 
@@ -261,13 +290,28 @@ class PredEval:
             return self._truth(e)
         if isinstance(e, ast.IfExp):
             return self._val(e.body) if self._truth(e.test) else self._val(e.orelse)
+        if isinstance(e, (ast.Tuple, ast.List)):
+            return tuple(self._val(x) for x in e.elts)
         v = self._subject_value(e)
         if v is not TOP:
             return v
         return self._atom(e)
 
-    def _atom(self, e: ast.expr) -> bool:
+    def _atom_key(self, e: ast.expr) -> str:
+        """Normalised text, with opaque locals replaced by their binding site and re-assigned attributes by their version."""
         key = norm(e)
+        tags = []
+        for n in ast.walk(e):
+            if isinstance(n, ast.Name) and n.id in self._loc:
+                v = self._loc[n.id]
+                if isinstance(v, tuple) and len(v) == 2 and v[0] == "opaque":
+                    tags.append(v[1])
+            elif isinstance(n, (ast.Attribute, ast.Subscript)) and self._ver.get(norm(n)):
+                tags.append(f"{norm(n)}#{self._ver[norm(n)]}")
+        return key + (" {" + ", ".join(sorted(set(tags))) + "}" if tags else "")
+
+    def _atom(self, e: ast.expr) -> bool:
+        key = self._atom_key(e)
         if key in self._aenv:
             return self._aenv[key]
         if key not in self._missing:
@@ -288,6 +332,8 @@ class PredEval:
                     return False
                 left = right
             return True
+        if isinstance(e, ast.Name) and isinstance(self._loc.get(e.id), tuple) and self._loc[e.id][:1] == ("opaque",):
+            return self._atom(e)
         v = self._val(e) if not isinstance(e, (ast.Call, ast.Attribute, ast.Subscript)) or norm(e) in self._env or (isinstance(e, ast.Name)) else None
         if isinstance(e, (ast.Call, ast.Attribute, ast.Subscript)) and norm(e) not in self._env:
             c = self._const(e)
